@@ -166,6 +166,16 @@ func (f *frame) exec(in ssa.Instruction, g Term, st *State) error {
 		t := vc.declare(f.name(x), SFn)
 		f.vals[x] = t
 		vc.assume(g, Gt(t, IntLit(0)))
+		if fn, ok := x.Fn.(*ssa.Function); ok {
+			ci := &closureInfo{fn: fn}
+			for _, b := range x.Bindings {
+				ci.free = append(ci.free, f.val(b))
+			}
+			if vc.closures == nil {
+				vc.closures = map[string]*closureInfo{}
+			}
+			vc.closures[t.S] = ci
+		}
 	case *ssa.Range:
 		ri := &rangeInfo{}
 		if mt, ok := x.X.Type().Underlying().(*types.Map); ok {
